@@ -484,146 +484,6 @@ fn c13_buffered_union_prog1() {
     std::mem::forget(ds);
 }
 
-/// Leaf for the window-crossing programs: the dense range [0, dense_end) followed by the ids of
-/// `arr` (all >= dense_end). `fill_buffer` hands out 64 ids per call, so a partial fill needs a
-/// union of more than 64 documents; the dense part is concrete, the tail symbolic.
-#[derive(Clone, Copy)]
-pub(crate) struct DenseThenArr {
-    pub dense_end: DocId,
-    pub pos: DocId,
-    pub arr: Arr,
-}
-
-impl DocSet for DenseThenArr {
-    fn advance(&mut self) -> DocId {
-        if self.pos < self.dense_end {
-            self.pos += 1;
-        } else {
-            self.arr.advance();
-        }
-        self.doc()
-    }
-    fn doc(&self) -> DocId {
-        if self.pos < self.dense_end {
-            self.pos
-        } else {
-            self.arr.doc()
-        }
-    }
-    fn size_hint(&self) -> u32 {
-        self.dense_end + self.arr.len as u32
-    }
-}
-
-/// BufferedUnionScorer over A = [0, 66) (score 1) and B = 2 symbolic ids in [lo_b, 9000)
-/// (score 2), SumCombiner. Program: one `fill_buffer` (hands out 0..63, leaves the scorer on 64),
-/// then four `advance` calls, which cross into the window(s) of B's ids: 65, b0, b1, end, end.
-/// Every id and every score read is compared with the sorted union.
-fn buffered_union_fill_then_advance(lo_b: DocId) {
-    let a = DenseThenArr { dense_end: 66, pos: 0, arr: Arr::empty() };
-    // concrete length: a symbolic length keeps every refill loop unwinding to its bound
-    let bdocs: [DocId; N] = kani::any();
-    kani::assume(bdocs[0] >= lo_b && bdocs[0] < bdocs[1] && bdocs[1] < 9000);
-    let barr = Arr { docs: bdocs, len: 2, cur: 0 };
-    let b = DenseThenArr { dense_end: 0, pos: 0, arr: barr };
-    let in_a = |d: DocId| d < 66;
-    let score_of = |d: DocId| (if in_a(d) { 1.0 } else { 0.0 }) + (if barr.contains(d) { 2.0 } else { 0.0 });
-    let mut ds: BufferedUnionScorer<ConstScorer<DenseThenArr>, SumCombiner> = BufferedUnionScorer::build(
-        vec![ConstScorer::new(a, 1.0), ConstScorer::new(b, 2.0)],
-        SumCombiner::default,
-        9000,
-    );
-    assert_eq!(ds.doc(), 0);
-    assert!(ds.score() == score_of(0));
-    let mut buf = [0u32; COLLECT_BLOCK_BUFFER_LEN];
-    let n = ds.fill_buffer(&mut buf);
-    assert_eq!(n, COLLECT_BLOCK_BUFFER_LEN);
-    let k: usize = kani::any();
-    kani::assume(k < COLLECT_BLOCK_BUFFER_LEN);
-    assert_eq!(buf[k], k as u32);
-    assert_eq!(ds.doc(), 64);
-    // the rest of the union, in order: 65, then B's ids >= 66
-    let mut expect = [TERMINATED; 4];
-    expect[0] = 65;
-    let mut w = 1;
-    let mut i = 0;
-    while i < 2 {
-        if i < barr.len && barr.docs[i] >= 66 {
-            expect[w] = barr.docs[i];
-            w += 1;
-        }
-        i += 1;
-    }
-    let mut j = 0;
-    while j < 4 {
-        let d = ds.advance();
-        assert_eq!(d, expect[j]);
-        assert_eq!(ds.doc(), d);
-        if d != TERMINATED {
-            assert!(ds.score() == score_of(d));
-        }
-        j += 1;
-    }
-    kani::cover!(barr.docs[0] >= 4096 && barr.docs[1] - barr.docs[0] < 60, "B's ids share a later window that reuses drained slots");
-    std::mem::forget(ds);
-}
-
-/// One `fill_buffer` call drains a union whose ids span two windows of the sliding bitset:
-/// A and B hold two symbolic ids each, all < 8192. The call must hand out exactly the sorted
-/// union and leave the scorer exhausted.
-fn buffered_union_one_fill<C: ScoreCombiner + Default>() {
-    let da: [DocId; N] = kani::any();
-    let db: [DocId; N] = kani::any();
-    kani::assume(da[0] < da[1] && da[1] < 8192 && db[0] < db[1] && db[1] < 8192);
-    let a = Arr { docs: da, len: 2, cur: 0 };
-    let b = Arr { docs: db, len: 2, cur: 0 };
-    let ls = [a, b, Arr::empty()];
-    let mut ds: BufferedUnionScorer<ConstScorer<Arr>, C> = BufferedUnionScorer::build(vec![cs(a, 1.0), cs(b, 2.0)], C::default, 8192);
-    let first = next_where(&ls, 0, |_| true);
-    assert_eq!(ds.doc(), first);
-    let mut buf = [0u32; COLLECT_BLOCK_BUFFER_LEN];
-    let n = ds.fill_buffer(&mut buf);
-    let total = count_where(&ls, 0, |_| true) as usize;
-    assert_eq!(n, total);
-    let mut t = 0;
-    let mut i = 0;
-    while i < 4 {
-        if i < n {
-            let e = next_where(&ls, t, |_| true);
-            assert_eq!(buf[i], e);
-            t = e + 1;
-        }
-        i += 1;
-    }
-    assert_eq!(ds.doc(), TERMINATED);
-    kani::cover!(n == 4 && buf[1] + 4096 <= buf[2], "two windows, two ids each");
-    std::mem::forget(ds);
-}
-
-#[kani::proof]
-#[kani::unwind(5)]
-fn c13_buffered_union_one_fill_two_windows() {
-    buffered_union_one_fill::<DoNothingCombiner>();
-}
-
-#[kani::proof]
-#[kani::unwind(5)]
-fn c13_buffered_union_one_fill_two_windows_sum() {
-    buffered_union_one_fill::<SumCombiner>();
-}
-
-#[kani::proof]
-#[kani::unwind(5)]
-fn c13_buffered_union_fill_then_advance_far() {
-    buffered_union_fill_then_advance(4096);
-}
-
-#[kani::proof]
-#[kani::unwind(5)]
-fn c13_buffered_union_fill_then_advance_any() {
-    buffered_union_fill_then_advance(0);
-}
-
 // ---------------------------------------------------------------------------------------------
 // leaf / wrapper doc sets
 // ---------------------------------------------------------------------------------------------
